@@ -19,6 +19,8 @@ import (
 type c03Case struct {
 	Tree *ir.Node `json:"tree"`          // programmatic tree (when Src is empty)
 	Src  string   `json:"src,omitempty"` // or: source text whose parsed tree is printed
+	// FromSrc: the tree comes from parsing Src even when Src is the empty text
+	FromSrc bool `json:"from_src,omitempty"`
 	// Trivia: leading trivia pattern for the synthesised tokens of a programmatic
 	// tree (cyclic; 0 none, 1 comment, 2 line break, 3 blank line + comment)
 	Trivia []int `json:"trivia,omitempty"`
@@ -49,7 +51,7 @@ func c03Decided(n *ir.Node) bool {
 func c03Check(c c03Case, rec *evid.Recorder) *Fail {
 	var T *ast.Program
 	var want *ir.Node
-	if c.Src != "" {
+	if c.Src != "" || c.FromSrc {
 		p, errs, err := parseX(c.Src, Mode{})
 		if err != nil || len(errs) > 0 {
 			rec.Discard("source rejected by xjs (C02's business)")
@@ -110,7 +112,7 @@ func c03Gen(t *rapid.T, rec *evid.Recorder) c03Case {
 			opt.Redundant = 150
 		}
 		src, _ := layout.Source(r, tree, opt)
-		return c03Case{Src: src}
+		return c03Case{Src: src, FromSrc: true}
 	}
 	c := c03Case{Tree: tree}
 	if r.Intn(3, "trivia") == 0 {
